@@ -1,7 +1,7 @@
 ------------------------------- MODULE MCAVL -------------------------------
 (* Bounded model checking of the AVL tree model: C01 refinement of AbsMap,   *)
 (* C02 sorted walk and navigation, C07 shape and work bound, C15 size.        *)
-EXTENDS AVL, AbsMap, Shape
+EXTENDS AVL, AbsMap, Shape, Json
 cfgT == [sorted |-> TRUE, cmp |-> "nat", linked |-> FALSE, bidi |-> FALSE, vsorted |-> FALSE, vcmp |-> "nat"]
 E(t) == InOrder(t, t.root)
 Refines ==
@@ -26,4 +26,7 @@ Flat(t) == LET ord == Pre(t, t.root)
            IN [i \in DOMAIN ord |-> <<t.n[ord[i]].key, ix(t.n[ord[i]].c0), ix(t.n[ord[i]].c1), ix(t.n[ord[i]].parent)>>]
 ShapeInv == AVLShapeOK(Flat(T))
 WorkBound == [][ last'.op \in {"Get", "Put", "Remove"} => WorkOK("avl", 0, last'.n, last'.cmps) ]_vars
+RECURSIVE CanonK(_, _)
+CanonK(t, x) == IF x = Nil THEN <<>> ELSE <<t.n[x].key, t.n[x].b, CanonK(t, t.n[x].c0), CanonK(t, t.n[x].c1)>>
+Fid == PrintT("S|" \o ToJson(CanonK(T, T.root)))
 =============================================================================
